@@ -26,7 +26,10 @@ TRANSFORMS = {
     "in_cat": ("cat $IN", lambda b: b),
     "in_out": (H + "/cp.sh $IN $OUT", lambda b: b),
     "in_head": ("head -c 4096 $IN", lambda b: b[:4096]),
+    # fails (after 64 bytes of output) on inputs whose 65th byte is odd: such files are left out
+    "failodd": (H + "/failodd.sh", lambda b: b[:64] if len(b) <= 64 or b[64] % 2 == 0 else None),
 }
+UNSAMPLED_TRANSFORMS = {"failodd"}
 
 
 def sample_opts(r, allow_transform=True, allow_rf=True, allow_links=True, allow_cache=True):
@@ -44,7 +47,7 @@ def sample_opts(r, allow_transform=True, allow_rf=True, allow_links=True, allow_
         "fs": "tmpfs" if r.random() < 0.25 else "ext4",
     }
     if allow_transform and r.random() < 0.2:
-        o["transform"] = r.choice(sorted(TRANSFORMS))
+        o["transform"] = r.choice(sorted(set(TRANSFORMS) - UNSAMPLED_TRANSFORMS))
     if allow_rf and r.random() < 0.4:
         k = r.choice([0, 1, 2, 3])
         o["rf"] = r.choice([("over", k), ("under", max(k, 1)), ("unique", None)])
@@ -132,6 +135,8 @@ def file_key(path, o, cache=None):
         b = f.read()
     if o.get("transform"):
         b = TRANSFORMS[o["transform"]][1](b)
+        if b is None:
+            return None  # the transform fails on this file: it is left out
     return (len(b), hashlib.sha256(b).hexdigest())
 
 
@@ -160,7 +165,8 @@ def expected_partition(files, o, roots_abs=None):
     must be reported."""
     classes = {}
     for p, rec in files.items():
-        classes.setdefault(rec["key"], []).append((p, rec["id"]))
+        if rec["key"] is not None:
+            classes.setdefault(rec["key"], []).append((p, rec["id"]))
     mode, k = rf_params(o)
     out = set()
     for key, members in classes.items():
